@@ -9,7 +9,8 @@ from ..runner import ok, violation, case_sig
 PID = 'C04'
 LEVEL = 'exploration'
 RULE = ('Base object (any elementary surface incl. one-sheet cones and tori, '
-        'any macrobody, or a 1-3 surface cell) x rigid motion (generic, axis '
+        'any macrobody incl. single facets n.k, or a 1-3 surface cell) x '
+        'rigid motion (generic, axis '
         'permutation, axis flip, rotation about one axis, small angle, '
         'translation only) x spelling: surface-card transformation number '
         'with TRn / *TRn of 3, 12 or 13 (m=1) entries and abbreviated '
@@ -149,10 +150,20 @@ def tr_case(draw, tier='quick', focus=None):
             labels += lab
             deck['surfaces'].append(s)
             sids.append(sid)
+        # facets of the macrobodies may be referenced individually (n.k),
+        # except in the implicit-number mode (1000*cell+surface.k is not a
+        # form the statement names)
+        fcounts = None
+        if mode != 'implicit':
+            fcounts = {s_['id']: mgeom.n_facets(s_['kind'], s_['params'])
+                       for s_ in deck['surfaces']
+                       if s_['kind'].lower() in mgeom.MACRO_KINDS}
         if n_s == 1:
-            expr = md.S(draw(st.sampled_from([-1, 1])) * sids[0])
+            expr = draw(gen.leaf(sids, fcounts))
         else:
-            expr = draw(gen.expression(sids, 2, None, compl_ok=False))
+            expr = draw(gen.expression(sids, 2, fcounts, compl_ok=False))
+        if "'f'" in repr(expr):
+            labels.append('facet-reference')
         cid = draw(st.sampled_from([1, 4, 30, 999]))
         if mode == 'trcl-num' or (mode == 'surf-tr+trcl'
                                   and draw(st.booleans())):
